@@ -258,8 +258,9 @@ fn longlife(a: &Args) {
                     old.update(0, rng.random_range(0.0..100.0));
                 }
                 old.reset();
-                let near = |x: u64| (c % x) < 3 || (c % x) > x - 3;
-                let at_check = if rotate { (near(256) && c < 2000) || near(65536) || c % 9973 == 0 } else { (c % 65536) < 3 || (c % 65536) > 65533 || (c % 256 < 2 && c < 1000) };
+                // c is exactly the number of resets so far (a check point only looks and updates)
+                let near = |x: u64| (c % x) <= 6 || (c % x) >= x - 6;
+                let at_check = if rotate { (near(256) && c < 2000) || near(65536) || c % 9973 == 0 } else { (c % 65536) <= 6 || (c % 65536) >= 65530 || (c % 256 < 2 && c < 1000) };
                 if at_check {
                     checks += 1;
                     let (leaves, mx) = observe(&old, m);
@@ -279,7 +280,6 @@ fn longlife(a: &Args) {
                         bad.push(json!({"resets_before": c, "looks_new_after_reset": fresh_like, "same_as_new_under_updates": same,
                                         "leaves_after_reset": leaves.iter().map(|v| format!("{:e}", v)).collect::<Vec<_>>(), "max_after_reset": format!("{:e}", mx)}));
                     }
-                    old.reset();
                 }
             }
             (bad, checks)
